@@ -216,11 +216,29 @@ package client
 //@ requires[wire-valid] forall i in 0..len(m.Operation) :: m.Operation[i] != nil && oneofOK(m.Operation[i].Entry) && (m.Operation[i].GetMpls() != nil ==> oneofOK(m.Operation[i].GetMpls().Label))
 //@ ensures[registered-or-error] len(c.sendErr) == old(len(c.sendErr)) ==> (forall i in 0..len(m.Operation) :: m.Operation[i].Id in dom(c.qs.pendq.Ops))
 //@ ensures[nothing-lost] forall k in old(dom(c.qs.pendq.Ops)) :: k in dom(c.qs.pendq.Ops) && c.qs.pendq.Ops[k] == old(c.qs.pendq.Ops[k])
+//@ ensures[errors-kept] len(c.sendErr) >= old(len(c.sendErr))
 //@ ensures[election-registered] m.ElectionId != nil && len(c.sendErr) == old(len(c.sendErr)) ==> c.qs.pendq.Election != nil && c.qs.pendq.Election.ID == m.ElectionId
 //@ ensures[queued-or-sent] (len(c.qs.sendq) == old(len(c.qs.sendq)) + 1 && c.qs.sendq[old(len(c.qs.sendq))] == m && len(sent(c.qs.modifyCh)) == old(len(sent(c.qs.modifyCh))))
 //@   || (len(c.qs.sendq) == old(len(c.qs.sendq)) && len(sent(c.qs.modifyCh)) <= old(len(sent(c.qs.modifyCh))) + 1)
 //@ ensures[queue-kept] forall i in 0..old(len(c.qs.sendq)) :: c.qs.sendq[i] == old(c.qs.sendq[i])
 //@ ensures[wf] qsWF(c)
+//@ assigns contents(c.qs.pendq.Ops), c.qs.pendq.Election, c.qs.pendq.SessionParams, c.sendErr, c.qs.sendq, sent(c.qs.modifyCh), recvd(c.sendExitCh)
+//@ props C13 C11:lock
+
+// StartSending: the stored session parameters and election id are (re-)announced through Q, then every queued request is handed
+// to the sender in queue order - each at most once, nothing else - and the queue is emptied; nothing pending is lost. The queued
+// requests were registered when Q queued them (queuedRegistered is Q's postcondition seen as an invariant of the queue).
+//@ pred queuedRegistered(c *Client) = forall i in 0..len(c.qs.sendq) :: c.qs.sendq[i] != nil && (len(c.sendErr) > 0 || (forall j in 0..len(c.qs.sendq[i].Operation) :: c.qs.sendq[i].Operation[j].Id in dom(c.qs.pendq.Ops)))
+//@ unit Client.StartSending
+//@ requires qsWF(c) && held(c.awaiting) == 0 && held(c.qs.sendMu) == 0 && held(c.sendErrMu) == 0 && held(c.qs.pendMu) == 0
+//@ requires[queued-registered] queuedRegistered(c)
+//@ ensures[queue-drained] len(c.qs.sendq) == 0
+//@ ensures[each-at-most-once] len(sent(c.qs.modifyCh)) <= old(len(sent(c.qs.modifyCh))) + old(len(c.qs.sendq)) + ite(c.state.SessParams != nil, 1, 0) + ite(c.state.ElectionID != nil, 1, 0)
+//@ ensures[nothing-lost] forall k in old(dom(c.qs.pendq.Ops)) :: k in dom(c.qs.pendq.Ops) && c.qs.pendq.Ops[k] == old(c.qs.pendq.Ops[k])
+//@ ensures[wf] qsWF(c)
+//@ loop 1 at "range c.qs.sendq" invariant qsWF(c) && held(c.awaiting) == 0 && held(c.qs.sendMu) == 2 && ranged == c.qs.sendq && queuedRegistered(c)
+//@ loop 1 invariant[lemma-sends] len(sent(c.qs.modifyCh)) + len(c.qs.sendq) - loopi <= old(len(sent(c.qs.modifyCh))) + old(len(c.qs.sendq)) + ite(c.state.SessParams != nil, 1, 0) + ite(c.state.ElectionID != nil, 1, 0)
+//@ loop 1 invariant forall k in old(dom(c.qs.pendq.Ops)) :: k in dom(c.qs.pendq.Ops) && c.qs.pendq.Ops[k] == old(c.qs.pendq.Ops[k])
 //@ assigns contents(c.qs.pendq.Ops), c.qs.pendq.Election, c.qs.pendq.SessionParams, c.sendErr, c.qs.sendq, sent(c.qs.modifyCh), recvd(c.sendExitCh)
 //@ props C13 C11:lock
 
